@@ -67,6 +67,8 @@ def rowmerge_tie(sdrv, c, r):
             ents.add((c["rowind"][p], pc[j]))
     if not all((i, i) in ents for i in range(n)):
         return None, None, False            # the bound is stated (and the code documented) for a zero-free diagonal
+    if n > 64 or len(ents) > 1600:
+        return None, None, False            # the extracted row-merge model is O(n^2 nnz) on unary naturals: 40 s at n = 120, dense
     rc, out, err = vf.sh2([sdrv], inp="%d | %s\n" % (n, " ".join("%d %d" % e for e in sorted(ents))), timeout=300)
     if rc != 0 or " R " not in out:
         return None, "symfill model driver failed: %s" % (err[-200:] or out[:100]), False
